@@ -104,14 +104,16 @@ Definition tbl := list (string * string).
 Definition litem_o := (litem * (tbl * tbl * tbl))%type.   (* item + what ToUpper / ToLower / Title returned *)
 
 Definition model_label (caps : bool) (x : litem_o) : string :=
-  let '(it, (u, l, t)) := x in set_dims_label (tbl_fun u) (tbl_fun l) (tbl_fun t) caps it.
+  let '(it, (u, l, t)) := x in
+  if capslock_fix_applied then set_dims_label_fixed (tbl_fun u) (tbl_fun l) (tbl_fun t) caps it
+  else set_dims_label (tbl_fun u) (tbl_fun l) (tbl_fun t) caps it.
 
 Definition user_tt_valid (it : litem) : bool :=
   match l_tt it with Some v => str_in v valid_tts | None => false end.
 
 Definition hyp_label (x : litem_o) : bool :=
   let '(it, (u, l, t)) := x in
-  negb (user_tt_valid it) || caps_commutes_at_b (tbl_fun u) (tbl_fun l) (tbl_fun t) (l_tt it) (l_label it).
+  capslock_fix_applied || negb (user_tt_valid it) || caps_commutes_at_b (tbl_fun u) (tbl_fun l) (tbl_fun t) (l_tt it) (l_label it).
 
 Definition has_none (tids : list (option Z)) : bool :=
   existsb (fun t => match t with None => true | Some _ => false end) tids.
